@@ -372,6 +372,9 @@ Proof.
   - discriminate.
 Qed.
 
+Lemma quote_chars_eq : forall c, existsb (N.eqb c) quote_chars = (N.eqb c 39 || N.eqb c 34)%bool.
+Proof. intro c. unfold quote_chars. simpl. now rewrite orb_false_r. Qed.
+
 (* what Lexer.Next guarantees for a token *)
 Definition next_tok_post (src : bytes) (l : lexer) (t : token) (l' : lexer) : Prop :=
   tok_post src l t l' /\
@@ -422,7 +425,8 @@ Proof.
     unfold next_tok_post. split; [|split; [|split; [simpl; congruence|simpl; discriminate]]].
     + apply tok_post_intro; simpl; try lia. unfold lex_inv. simpl. split; [now symmetry|split; lia].
     + simpl. intros j Hj. apply Hnonl. lia.
-  - destruct (skipn_cons_inv _ _ _ _ Hs) as (Hc & Hs' & Hlt).
+  - rewrite quote_chars_eq.
+    destruct (skipn_cons_inv _ _ _ _ Hs) as (Hc & Hs' & Hlt).
     assert (Hb := Hblank c s' eq_refl).
     assert (Hinv0 : lex_inv src (mkLexer (c :: s') pos pos)).
     { unfold lex_inv. simpl. split; [now symmetry|split; lia]. }
@@ -598,4 +602,129 @@ Proof.
   subst p. rewrite <- A4 in *.
   split; [reflexivity|split; [exact D2|split; [apply nth_error_Some; congruence|split; [|exact E4]]]].
   intros j Hj. apply E2. lia.
+Qed.
+
+(* ---------- the text of a token ---------- *)
+
+(* identifiers and numbers denote src[tokenStart:pos]; a string denotes the bytes strictly
+   between its two (equal) quotes; every other token has Len = 0 *)
+Definition tok_text_ok (src : bytes) (t : token) (l' : lexer) : Prop :=
+  match ttag t with
+  | TIdent | TNum => tpos t + tlen t = lpos l' /\ 0 < tlen t
+  | TStr =>
+      S (tpos t + tlen t) = lpos l' /\ 1 <= tpos t /\
+      exists q, (q = 39%N \/ q = 34%N) /\
+        nth_error src (tpos t - 1) = Some q /\ nth_error src (tpos t + tlen t) = Some q /\
+        forall j, tpos t <= j < tpos t + tlen t -> nth_error src j <> Some q
+  | _ => tlen t = 0
+  end.
+
+Definition word_tag (t : tag) : bool :=
+  match t with TIdent | TNum | TStr => true | _ => false end.
+
+Lemma tok_text_simple : forall src tg pos l', word_tag tg = false -> tok_text_ok src (simple tg pos) l'.
+Proof. intros src tg pos l' H. unfold tok_text_ok. simpl. destruct tg; try reflexivity; discriminate H. Qed.
+
+Lemma keyword_not_word : forall s t, lookup_kw keyword_table s = Some t -> word_tag t = false.
+Proof.
+  intros s t H. apply lookup_kw_in in H. vm_compute in H.
+  repeat (destruct H as [H|H]; [subst t; reflexivity|]). contradiction.
+Qed.
+
+Lemma op1_not_word : forall c t, lookup_op1 op1_table c = Some t -> word_tag t = false.
+Proof.
+  intros c t H. apply lookup_op1_in in H. unfold op1_table in H. simpl in H.
+  repeat (destruct H as [H|H]; [inversion H; reflexivity|]). contradiction.
+Qed.
+
+Lemma op2_not_word : forall c d t, lookup_op2 op2_table c d = Some t -> word_tag t = false.
+Proof.
+  intros c d t H. apply lookup_op2_in in H. unfold op2_table in H. simpl in H.
+  repeat (destruct H as [H|H]; [inversion H; reflexivity|]). contradiction.
+Qed.
+
+Lemma lex_identifier_text : forall src pre l t l',
+  lex_inv src l -> lex_identifier pre l = (t, l') -> lstart l < lpos l' ->
+  tok_text_ok src t l'.
+Proof.
+  intros src pre l t l' Hinv H Hlt.
+  destruct (lex_identifier_span src pre l t l' Hinv H) as ((A1 & A2 & A3 & A4 & A5 & A6) & B & C & D).
+  unfold lex_identifier in H.
+  destruct (take_while ident_char (lrest l)) as [run rest].
+  destruct (lookup_kw keyword_table (pre ++ run)) as [kw|] eqn:Ekw; inversion H; subst t l'; clear H.
+  - assert (Hw := keyword_not_word _ _ Ekw). unfold tok_text_ok. cbn [ttag tlen].
+    destruct kw; try reflexivity; discriminate Hw.
+  - unfold tok_text_ok. cbn [ttag tpos tlen lpos] in *. lia.
+Qed.
+
+Theorem lex_next_text_proof : forall src l t l',
+  lex_inv src l -> lex_next l = LexTok t l' -> tok_text_ok src t l'.
+Proof.
+  intros src l t l' Hinv H.
+  generalize (lex_next_spec src l Hinv). rewrite H.
+  intros ((P1 & P2 & P3 & P4 & P5 & P6) & PB & PC & PD).
+  unfold lex_next in H.
+  destruct (skip_ws (lrest l) (lpos l)) as [s pos] eqn:Ews.
+  destruct (lex_next_setup src l s pos Hinv Ews) as (Hs & Hpos & Hle & Hblank & Hnonl).
+  destruct s as [|c s'].
+  { inversion H; subst. apply tok_text_simple. reflexivity. }
+  rewrite quote_chars_eq in H.
+  destruct (skipn_cons_inv _ _ _ _ Hs) as (Hc & Hs' & Hlt).
+  assert (Hinv0 : lex_inv src (mkLexer (c :: s') pos pos)).
+  { unfold lex_inv. simpl. split; [now symmetry|split; lia]. }
+  assert (Hinv1 : lex_inv src (mkLexer s' (S pos) pos)).
+  { unfold lex_inv. simpl. split; [now symmetry|split; lia]. }
+  destruct (N.eqb c 10) eqn:E10.
+  { inversion H; subst. apply tok_text_simple. reflexivity. }
+  destruct (N.eqb c 36) eqn:E36.
+  { destruct (lex_identifier [36%N] (mkLexer s' (S pos) pos)) as [t0 l0] eqn:Eid.
+    inversion H; subst t0 l0; clear H.
+    apply (lex_identifier_text src _ _ _ _ Hinv1 Eid).
+    destruct (lex_identifier_span src _ _ _ _ Hinv1 Eid) as ((_ & _ & _ & _ & _ & A6) & _).
+    cbn [lstart lpos] in *. lia. }
+  destruct (latin1_is_digit c) eqn:Edig.
+  { destruct (lex_number (mkLexer (c :: s') pos pos)) as [t0 l0] eqn:Enum.
+    inversion H; subst t0 l0; clear H.
+    destruct (lex_number_span src _ _ _ Hinv0 Enum) as (_ & B & C & D).
+    unfold tok_text_ok. rewrite C. split; [exact D|].
+    assert (ttag t <> TEOF) by (rewrite C; discriminate). destruct (PC H) as (_ & _ & X). lia. }
+  destruct (latin1_is_letter c || N.eqb c 95)%bool eqn:Elet.
+  { destruct (lex_identifier [] (mkLexer (c :: s') pos pos)) as [t0 l0] eqn:Eid.
+    inversion H; subst t0 l0; clear H.
+    apply (lex_identifier_text src _ _ _ _ Hinv0 Eid).
+    destruct (lex_identifier_span src _ _ _ _ Hinv0 Eid) as ((_ & _ & _ & A4 & _ & _) & B & _).
+    cbn [lstart] in *.
+    destruct (tag_eq_dec (ttag t) TEOF) as [E|E].
+    - exfalso. unfold lex_identifier in Eid.
+      destruct (take_while ident_char (lrest _)) as [run rest].
+      destruct (lookup_kw keyword_table ([] ++ run)) as [kw|] eqn:Ekw; inversion Eid; subst t; simpl in E.
+      + subst kw. apply lookup_kw_in in Ekw. vm_compute in Ekw.
+        repeat (destruct Ekw as [Ekw|Ekw]; [discriminate Ekw|]). exact Ekw.
+      + discriminate E.
+    - destruct (PC E) as (_ & _ & X). lia. }
+  assert (Hstr : forall d s'', s' = d :: s'' \/ s' = [] -> lookup_op1 op1_table c = None ->
+            match (if (N.eqb c 39 || N.eqb c 34)%bool then lex_string c (mkLexer s' (S pos) pos)
+                   else LexErr pos (mkLexer s' (S pos) pos)) with
+            | LexTok t0 l0 => tok_text_ok src t0 l0
+            | LexErr _ _ => True
+            end).
+  { intros d s'' _ _. destruct (N.eqb c 39 || N.eqb c 34)%bool eqn:Eq; [|exact I].
+    destruct (lex_string c (mkLexer s' (S pos) pos)) as [t0 l0|] eqn:Estr; [|exact I].
+    destruct (lex_string_span src c _ _ _ Hinv1 Estr) as ((A1 & A2 & A3 & A4 & A5 & A6) & B & C & D & E).
+    cbn [lpos lstart] in *. destruct (E eq_refl) as [E1 E2].
+    unfold tok_text_ok. rewrite B.
+    split; [exact E1|split; [lia|]]. exists c.
+    split; [apply orb_true_iff in Eq; destruct Eq as [Eq|Eq]; apply N.eqb_eq in Eq; auto|].
+    split; [rewrite E2; replace (S pos - 1) with pos by lia; exact Hc|].
+    split; [replace (tpos t0 + tlen t0) with (lpos l0 - 1) by lia; exact C|].
+    intros j Hj. apply D. lia. }
+  destruct s' as [|d s''].
+  - destruct (lookup_op1 op1_table c) as [t1|] eqn:E1.
+    + inversion H; subst. apply tok_text_simple. exact (op1_not_word _ _ E1).
+    + generalize (Hstr 0%N [] (or_intror eq_refl) eq_refl). rewrite H. auto.
+  - destruct (lookup_op2 op2_table c d) as [t2|] eqn:E2.
+    + inversion H; subst. apply tok_text_simple. exact (op2_not_word _ _ _ E2).
+    + destruct (lookup_op1 op1_table c) as [t1|] eqn:E1.
+      * inversion H; subst. apply tok_text_simple. exact (op1_not_word _ _ E1).
+      * generalize (Hstr d s'' (or_introl eq_refl) eq_refl). rewrite H. auto.
 Qed.
